@@ -73,3 +73,34 @@ Lemma scan_example :
   scan (fun h => match h with 3 => [30%N] | 6 => [60; 61]%N | 7 => [70%N] | _ => [] end) 5 1 100 = [30; 60; 61; 70]%N /\
   settle (fun x => match x with 30 => 2 | 60 => 5 | 61 => 55 | 70 => 60 | _ => 0 end)%N (fun i => N.leb i 5) [30; 60; 61; 70]%N [] = [30; 60; 70]%N.
 Proof. split; vm_compute; reflexivity. Qed.
+
+(* ---- the scan, exactly ------------------------------------------------------ *)
+(* what is submitted is submitted for a reason: the walk got to its height *)
+Lemma scan_from_exact unv tip : forall fuel n x,
+  In x (scan_from unv tip n fuel) ->
+  exists h, n <= h < n + fuel /\ In x (unv h) /\
+            (forall m, n <= m <= h -> tip < m -> unv m <> []).
+Proof.
+  induction fuel as [|f IH]; intros n x H; cbn [scan_from] in H; [destruct H|].
+  destruct (Nat.ltb tip n && is_nil (unv n)) eqn:Estop; [destruct H|].
+  assert (Hn : tip < n -> unv n <> []).
+  { intros L E. apply Nat.ltb_lt in L. rewrite L, E in Estop. discriminate. }
+  apply in_app_or in H as [H|H].
+  - exists n. split; [lia|]. split; [exact H|]. intros m Hm. replace m with n by lia. exact Hn.
+  - destruct (IH (S n) x H) as (h & Hh & Hx & Hne). exists h. split; [lia|]. split; [exact Hx|].
+    intros m Hm L. destruct (Nat.eq_dec m n) as [->|Hd]; [exact (Hn L)|]. apply Hne; [lia|exact L].
+Qed.
+
+(* InitLoadUnverified submits a block exactly when it is stored-but-unverified
+   at a height of the range and no height from the start of the range up to its
+   own that lies above the tip is without a stored-but-unverified block *)
+Theorem scan_exact unv tip start fin x :
+  In x (scan unv tip start fin) <->
+  exists h, start <= h <= fin /\ In x (unv h) /\
+            (forall m, start <= m <= h -> tip < m -> unv m <> []).
+Proof.
+  split.
+  - unfold scan. intros H. apply scan_from_exact in H as (h & Hh & Hx & Hne).
+    exists h. split; [lia|]. split; assumption.
+  - intros (h & Hh & Hx & Hne). exact (scan_reaches unv tip start fin h x Hh Hx Hne).
+Qed.
